@@ -38,16 +38,16 @@ def generate(repo):
             if not isinstance(v, (ast.List, ast.Tuple)):
                 raise Fail('value of %r is not a list literal' % key)
             table.append((key, [const(e, str) for e in v.elts]))
-        # the loop that applies the table:  for metric in desc_func(): result.append(metric.name);
-        #                                   for suffix in type_suffixes.get(metric.type, []): result.append(metric.name + suffix)
+        # the loop that applies the table: every name (family name = empty suffix first, then the type's suffixes) is
+        # recorded once
         loops = [n for n in f.body if isinstance(n, ast.For)]
         if len(loops) != 1:
             raise Fail('expected exactly one top-level for loop in _get_names')
         lp = loops[0]
         want = ("for metric in desc_func():\n"
-                "    result.append(metric.name)\n"
-                "    for suffix in type_suffixes.get(metric.type, []):\n"
-                "        result.append(metric.name + suffix)")
+                "    for suffix in [''] + type_suffixes.get(metric.type, []):\n"
+                "        if metric.name + suffix not in result:\n"
+                "            result.append(metric.name + suffix)")
         if ast.unparse(lp) != want:
             raise Fail('the loop applying type_suffixes changed: %s' % ast.unparse(lp).replace('\n', ' / ')[:200])
         return _emit(True, table)
